@@ -76,6 +76,18 @@ class DirectiveParsingResult:
     """
 
 
+def _split_lines(text: str) -> list[str]:
+    """Split text into its source lines, i.e. on newlines only.
+
+    Unlike ``str.splitlines``, characters such as form feeds or U+2028,
+    are not treated as line breaks (they are not in the Markdown source either).
+    """
+    lines = text.split("\n")
+    if not lines[-1]:
+        lines.pop()
+    return lines
+
+
 def parse_directive_text(
     directive_class: type[Directive],
     first_line: str,
@@ -117,13 +129,13 @@ def parse_directive_text(
         parse_warnings = result.warnings
         has_options_block = result.has_options
         options = result.options
-        body_lines = result.content.splitlines()
-        content_offset = len(content.splitlines()) - len(body_lines)
+        body_lines = _split_lines(result.content)
+        content_offset = len(_split_lines(content)) - len(body_lines)
     else:
         parse_warnings = []
         has_options_block = False
         options = {}
-        body_lines = content.splitlines()
+        body_lines = _split_lines(content)
         content_offset = 0
 
     if not (directive_class.required_arguments or directive_class.optional_arguments):
@@ -181,7 +193,7 @@ def _parse_directive_options(
         line = None if line is None else line + 1
         # note: each line is re-terminated, so that trailing blank lines
         # (and hence the line count of the remaining content) are preserved
-        content = "".join(f"{ln}\n" for ln in content.splitlines()[1:])
+        content = "".join(f"{ln}\n" for ln in _split_lines(content)[1:])
         match = re.search(r"^-{3,}", content, re.MULTILINE)
         if match:
             options_block = content[: match.start()]
@@ -192,7 +204,7 @@ def _parse_directive_options(
         options_block = dedent(options_block)
     elif content.lstrip().startswith(":") and not content.lstrip().startswith(":::"):
         # note: a line starting with `:::` is a (nested) colon fence, not an option
-        content_lines = content.splitlines()
+        content_lines = _split_lines(content)
         yaml_lines = []
         while content_lines:
             first_line = content_lines[0].lstrip()
